@@ -1,5 +1,6 @@
 import HdVerif.Model.Basic
 import HdVerif.Generated.T14
+import HdVerif.Generated.T14p
 /-! # Model of `highdicom.sr.value_types.ContentSequence` (property C14)
 
 State = the underlying list (`pydicom` `ConstrainedList._list`), the shadow index `_lut`
@@ -392,5 +393,174 @@ def step (s : Seq) : Op → Res
 def run (s : Seq) : List Op → Seq
   | [] => s
   | op :: ops => run (step s op).1 ops
+
+/-! ## the interpreter of the regenerated method programs (`Generated/T14p.lean`, language `Model/SRSeqIR.lean`)
+
+`Props/C14.lean` proves that the operations above ARE `run… Gen.csProg_…`: the index maintenance and the queries
+of the model are what the current source says, statement by statement. -/
+open HdVerif.SRSeqIR
+
+/-- the index argument of a method -/
+inductive Idx
+  | none
+  | pos (p : Int)                     -- `position` of `insert`
+  | int (i : Int)                     -- `idx` of `__setitem__` / `__delitem__`, an int
+  | slice (a b c : Option Int)        -- … a slice
+
+/-- a resolved index -/
+inductive RIdx
+  | one (k : Nat)
+  | sel (s : Sel)
+
+def resolveIdx (n : Nat) : Idx → Except ErrKind RIdx
+  | .int i => match normIdx n i with
+    | .ok k => .ok (.one k)
+    | .error e => .error e
+  | .slice a b c => match resolveSlice n a b c with
+    | .ok s => .ok (.sel s)
+    | .error e => .error e
+  | _ => .error .type
+
+/-- `self[idx]` as a list -/
+def getR (l : List Item) : RIdx → List Item
+  | .one k => (l.drop k).take 1
+  | .sel s => getSel l s
+
+def setR (l xs : List Item) : RIdx → Except ErrKind (List Item)
+  | .one k => match xs with
+    | [x] => .ok (l.set k x)
+    | _ => .error .type
+  | .sel s => setSel l xs s
+
+def delR (l : List Item) : RIdx → List Item
+  | .one k => l.take k ++ l.drop (k + 1)
+  | .sel s => delSel l s
+
+/-- machine state: the sequence and the items bound by `bindOld` -/
+structure MSt where
+  s : Seq
+  old : List Item
+
+def checkFn (fl : Bool × Bool) (s : Seq) : CheckId → Item → Except ErrKind Unit
+  | .ctor => ctorCheck fl.1 fl.2
+  | .append => appendCheck s
+  | .insert => insertCheck s
+  | .setitem => setitemCheck s
+
+/-- `for item in val: <f>(item)`, stopping at the first item that raises -/
+def eachCall (f : List Item → Seq → Res) : List Item → Seq → Res
+  | [], s => (s, none)
+  | x :: xs, s =>
+    match f [x] s with
+    | (s', none) => eachCall f xs s'
+    | (s', some e) => (s', some e)
+
+/-- one statement; `call` = the methods it may invoke, `fl` = the constructor's flag arguments,
+`idx` = the index argument, `args` = the offered items -/
+def execStmt (call : MethodId → List Item → Seq → Res) (fl : Bool × Bool) (idx : Idx) (args : List Item) (σ : MSt) :
+    MStmt → MSt × Option ErrKind
+  | .setFlags => ({ σ with s := { σ.s with isRoot := fl.1, isSr := fl.2 } }, none)
+  | .flags => match Gen.csCtorFlags fl.1 fl.2 with
+    | .error e => (σ, some e)
+    | .ok _ => (σ, none)
+  | .lutInit => ({ σ with s := { σ.s with lut := emptyLut } }, none)
+  | .normArgs => (σ, none)
+  | .checkEach c => match checkAll (checkFn fl σ.s c) args with
+    | .error e => (σ, some e)
+    | .ok _ => (σ, none)
+  | .bindOld => match resolveIdx σ.s.items.length idx with
+    | .error e => (σ, some e)
+    | .ok r => ({ σ with old := getR σ.s.items r }, none)
+  | .lutAppendArgs => ({ σ with s := { σ.s with lut := lutAddAll σ.s.lut args } }, none)
+  | .lutRemoveOld => match lutRemoveAll σ.s.lut σ.old with
+    | (lut1, e) => ({ σ with s := { σ.s with lut := lut1 } }, e)
+  | .listInit => ({ σ with s := { σ.s with items := args } }, none)
+  | .listAppend => ({ σ with s := { σ.s with items := σ.s.items ++ args } }, none)
+  | .listInsert => match idx with
+    | .pos p =>
+      let q := insertPos σ.s.items.length p
+      ({ σ with s := { σ.s with items := σ.s.items.take q ++ (args ++ σ.s.items.drop q) } }, none)
+    | _ => (σ, some .type)
+  | .listAssign => match resolveIdx σ.s.items.length idx with
+    | .error e => (σ, some e)
+    | .ok r => match setR σ.s.items args r with
+      | .error e => (σ, some e)
+      | .ok l => ({ σ with s := { σ.s with items := l } }, none)
+  | .listDelete => match resolveIdx σ.s.items.length idx with
+    | .error e => (σ, some e)
+    | .ok r => ({ σ with s := { σ.s with items := delR σ.s.items r } }, none)
+  | .forEachArg m => match eachCall (call m) args σ.s with
+    | (s', e) => ({ σ with s := s' }, e)
+  | .call m => match call m args σ.s with
+    | (s', e) => ({ σ with s := s' }, e)
+
+def execProg (call : MethodId → List Item → Seq → Res) (fl : Bool × Bool) (idx : Idx) (args : List Item) :
+    List MStmt → MSt → MSt × Option ErrKind
+  | [], σ => (σ, none)
+  | st :: r, σ =>
+    match execStmt call fl idx args σ st with
+    | (σ', none) => execProg call fl idx args r σ'
+    | (σ', some e) => (σ', some e)
+
+def runWith (call : MethodId → List Item → Seq → Res) (prog : List MStmt) (idx : Idx) (args : List Item) (s : Seq) : Res :=
+  match execProg call (s.isRoot, s.isSr) idx args prog ⟨s, []⟩ with
+  | (σ, e) => (σ.s, e)
+
+def noCall : MethodId → List Item → Seq → Res := fun _ _ s => (s, some .runtime)
+
+def runAppend (args : List Item) (s : Seq) : Res := runWith noCall Gen.csProg_append .none args s
+
+def call1 : MethodId → List Item → Seq → Res
+  | .append => runAppend
+  | .extend => fun _ s => (s, some .runtime)
+
+def runExtend (args : List Item) (s : Seq) : Res := runWith call1 Gen.csProg_extend .none args s
+
+def call2 : MethodId → List Item → Seq → Res
+  | .append => runAppend
+  | .extend => runExtend
+
+def runIadd (args : List Item) (s : Seq) : Res := runWith call2 Gen.csProg_iadd .none args s
+def runInsert (pos : Int) (args : List Item) (s : Seq) : Res := runWith call2 Gen.csProg_insert (.pos pos) args s
+def runSetitem (idx : Idx) (args : List Item) (s : Seq) : Res := runWith call2 Gen.csProg_setitem idx args s
+def runDelitem (idx : Idx) (s : Seq) : Res := runWith call2 Gen.csProg_delitem idx [] s
+
+/-- the constructor: the program runs on a blank object; an error means no object -/
+def runInit (items : List Item) (isRoot isSr : Bool) : Except ErrKind Seq :=
+  match execProg call2 (isRoot, isSr) .none items Gen.csProg_init ⟨{ items := [], lut := emptyLut, isRoot := false, isSr := true }, []⟩ with
+  | (σ, none) => .ok σ.s
+  | (_, some e) => .error e
+
+def flagOf (own : Bool) : FlagSrc → Bool
+  | .own => own
+  | .constTrue => true
+  | .constFalse => false
+
+/-- `find` / `get_nodes` as the regenerated program says -/
+def execCollect (p : CollectProg) (s : Seq) (n : Nat) : Except ErrKind Seq :=
+  let r := flagOf s.isRoot p.root
+  let sr := flagOf s.isSr p.sr
+  let src := match p.src with
+    | .bucketOfName => s.lut n
+    | .nodesOfSelf => s.items.filter (·.hasContent)
+  match p.via with
+  | .constructor => construct src r sr
+  | .extend =>
+    match construct [] r sr with
+    | .error e => .error e
+    | .ok e =>
+      match extend e src with
+      | (q, none) => .ok q
+      | (_, some err) => .error err
+
+/-- `index` as the regenerated program says -/
+def execIndex (p : IndexProg) (s : Seq) (x : Item) : Except ErrKind Nat :=
+  if !p.bucketKeyIsArgName then .error .other
+  else
+    let bucket := s.lut x.name
+    if p.membershipInBucket && !(bucket.contains x) then .error .value
+    else match p.result with
+      | .listIndex => if s.items.idxOf x < s.items.length then .ok (s.items.idxOf x) else .error .value
+      | .bucketIndex => .ok (bucket.idxOf x)
 
 end HdVerif.SRContentSeq
